@@ -28,7 +28,13 @@ COQ = os.path.join(ROOT, "coq")
 TH = os.path.join(COQ, "theories")
 REPO = os.environ.get("CKT_REPO", "/repo")
 VENV_PY = "/venv/bin/python"
-TAG = os.environ.get("CKT_TAG", "")  # non-empty: scratch run (seeded-change test); evidence/replays/cases go elsewhere
+TAG = os.environ.get("CKT_TAG", "")  # non-empty: scratch run (seeded-change test); build tree, evidence, replays, cases go elsewhere
+if TAG:
+    # isolated copy of the Coq tree (with compiled files, mtimes preserved) so that a scratch run against another
+    # checkout cannot disturb, or be disturbed by, runs in /verif/coq (Facts.v differs between checkouts)
+    _SRC_COQ = COQ
+    COQ = f"/tmp/ckt_scratch_{TAG}/coq"
+    TH = os.path.join(COQ, "theories")
 EVID_DIR = os.path.join(ROOT, "evidence") if not TAG else f"/tmp/ckt_scratch_{TAG}/evidence"
 REPLAY_DIR = os.path.join(ROOT, "replays") if not TAG else f"/tmp/ckt_scratch_{TAG}/replays"
 sys.path.insert(0, os.path.join(ROOT, "lib"))
@@ -56,8 +62,11 @@ def sh(cmd, timeout=None, cwd=None, env=None):
 
 
 class Lock:
+    def __init__(self, where=None):
+        self.where = where or os.path.dirname(COQ)
+
     def __enter__(self):
-        self.f = open(os.path.join(ROOT, ".lock"), "w")
+        self.f = open(os.path.join(self.where, ".lock"), "w")
         fcntl.flock(self.f, fcntl.LOCK_EX)
         return self
 
@@ -516,7 +525,16 @@ def replay(pid, path):
     return rc
 
 
+def sync_scratch_tree():
+    os.makedirs(COQ, exist_ok=True)
+    with Lock(ROOT):  # do not copy while a build in /verif/coq is in progress
+        subprocess.run(["rsync", "-a", "--delete", "--exclude", "cases/", "--exclude", "tmp/", _SRC_COQ + "/", COQ + "/"], check=True)
+
+
+
 def main():
+    if TAG:
+        sync_scratch_tree()
     ap = argparse.ArgumentParser()
     ap.add_argument("pid", nargs="?")
     ap.add_argument("--tier", default=os.environ.get("VERIF_TIER", "quick"))
